@@ -441,7 +441,7 @@ func c06Run(o *out, input string) {
 		bad = hx(s.bad)
 	}
 	o.emit(input, fmt.Sprintf("%s %s %s %d %s %d %s %s %d %s %s %s %s", hseq, s.end, bad, oc, trace,
-		w.Code, gstatus, hxs(s.mlog), mc, hx(respBody), rztab, hx([]byte(w.Header().Get("Content-Type"))), sendErr))
+		w.Code, gstatus, hxs(s.mlog), mc, hx(respBody), rztab, hx([]byte(w.Result().Header.Get("Content-Type"))), sendErr))
 }
 
 // ---------------------------------------------------------------- WebSocket (loopback)
